@@ -278,15 +278,17 @@ def universe(tier, seed, shard, nshards):
                                 'max_step': ms, 'max_dist': md, 'inner': 'sq' if (k1 + k2) % 2 == 0 else 'eu',
                                 'keep_int_repr': bool((k1 + r) % 2), 'psi_neg': True}
     # long thin bands: shapes up to 12 with narrow windows (where the compact layout has all four regions)
-    for r in range(1, 13):
-        for c in range(1, 13):
+    top = 19 if thorough else 13
+    for r in range(1, top):
+        for c in range(1, top):
             if max(r, c) < 7:
                 continue
             idx += 1
             if idx % nshards != shard:
                 continue
-            for w in (1, 2, 3):
-                for psi in (None, 1, (0, 0, 0, 2), (0, 2, 0, 0), (2, 0, 0, 0), (0, 0, 2, 0)):
+            for w in ((1, 2, 3, 4, 5) if thorough else (1, 2, 3)):
+                for psi in (None, 1, (0, 0, 0, 2), (0, 2, 0, 0), (2, 0, 0, 0), (0, 0, 2, 0)) + \
+                        (((5, 0, 0, 0), (0, 0, 5, 0), (0, 5, 0, 0), (0, 0, 0, 5), (3, 3, 3, 3), (0, r, 0, 0), (0, 0, 0, c)) if thorough else ()):
                     if psi is not None:
                         p = oracles.norm_psi(psi)
                         if oracles.psi_degenerate(p, r, c) or max(p[:2]) > r or max(p[2:]) > c:
@@ -341,7 +343,7 @@ def run(ctx):
                 'U1': 'all pairs len 1..3 x window{None,1,2} x penalty x max_step x inner x 9 psi forms x max_dist{None,1.6%s} x (keep_int_repr,psi_neg) in {(F,T),(T,F)}' % (',0.9,2.2' if ctx.thorough else ''),
                 'U2': 'shapes up to %dx%d: every slice [rb:re, cb:ce] of the full matrix, every window, 7 psi forms' % ((5, 4) if ctx.thorough else (4, 3)),
                 'U3': 'all shapes up to %d x every window x catalogue values' % (6 if ctx.thorough else 5),
-                'U4': 'ndim 2, len 1..2', 'U5': 'long thin bands: every shape up to 12x12 with max >= 7, windows 1..3, 6 psi forms'},
+                'U4': 'ndim 2, len 1..2', 'U5': 'long thin bands: every shape up to %s with max >= 7, windows %s, %d psi forms' % (('18x18', '1..5', 13) if ctx.thorough else ('12x12', '1..3', 6))},
         assumptions=['row 0 / column 0 of the matrix (virtual start cells) are not described by C04 and not judged; a wrong start cell shows in the in-band cells it feeds',
                      'cells whose optimum is within 1e-9 relative of max_dist are not judged'],
         t0=ctx.t0)
